@@ -2,7 +2,7 @@
 // Use of this source code is governed by a BSD-style
 // license that can be found in the LICENSE file.
 
-package interp
+package vm
 
 import (
 	"bytes"
@@ -11,12 +11,10 @@ import (
 	"go/token"
 	"go/types"
 	"os"
-	"reflect"
 	"strings"
 	"unsafe"
 
 	"golang.org/x/tools/go/ssa"
-	"golang.org/x/tools/internal/typeparams"
 )
 
 // If the target program panics, the interpreter panics with this type.
@@ -164,7 +162,7 @@ func asUnsigned(x value) (value, bool) {
 		return uint32(x), x >= 0
 	case int64:
 		return uint64(x), x >= 0
-	case uint, uint8, uint32, uint64, uintptr:
+	case uint, uint8, uint16, uint32, uint64, uintptr:
 		return x, true
 	}
 	panic(fmt.Sprintf("cannot convert %T to unsigned", x))
@@ -247,6 +245,9 @@ func zero(t types.Type) value {
 		}
 		return s
 	case *types.Tuple:
+		if t.Len() == 0 {
+			return nil
+		}
 		if t.Len() == 1 {
 			return zero(t.At(0).Type())
 		}
@@ -256,12 +257,9 @@ func zero(t types.Type) value {
 		}
 		return s
 	case *types.Chan:
-		return chan value(nil)
+		return (*vchan)(nil)
 	case *types.Map:
-		if usesBuiltinMap(t.Key()) {
-			return map[value]value(nil)
-		}
-		return (*hashmap)(nil)
+		return (*omap)(nil)
 	case *types.Signature:
 		return (*ssa.Function)(nil)
 	}
@@ -269,10 +267,13 @@ func zero(t types.Type) value {
 }
 
 // slice returns x[lo:hi:max].  Any of lo, hi and max may be nil.
-func slice(x, lo, hi, max value) value {
+func slice(mc *machine, x, lo, hi, max value) value {
 	var Len, Cap int
+	asInt64 := mc.asInt64
 	switch x := x.(type) {
 	case string:
+		Len = len(x)
+	case symstr:
 		Len = len(x)
 	case []value:
 		Len = len(x)
@@ -301,6 +302,8 @@ func slice(x, lo, hi, max value) value {
 	switch x := x.(type) {
 	case string:
 		return x[l:h]
+	case symstr:
+		return mkString(x[l:h])
 	case []value:
 		return x[l:h:m]
 	case *value: // *array
@@ -311,18 +314,10 @@ func slice(x, lo, hi, max value) value {
 }
 
 // lookup returns x[idx] where x is a map.
-func lookup(instr *ssa.Lookup, x, idx value) value {
+func lookup(mc *machine, instr *ssa.Lookup, x, idx value) value {
 	switch x := x.(type) { // map or string
-	case map[value]value, *hashmap:
-		var v value
-		var ok bool
-		switch x := x.(type) {
-		case map[value]value:
-			v, ok = x[idx]
-		case *hashmap:
-			v = x.lookup(idx.(hashable))
-			ok = v != nil
-		}
+	case *omap:
+		v, ok := x.get(mc, idx)
 		if !ok {
 			v = zero(instr.X.Type().Underlying().(*types.Map).Elem())
 		}
@@ -337,7 +332,26 @@ func lookup(instr *ssa.Lookup, x, idx value) value {
 // binop implements all arithmetic and logical binary operators for
 // numeric datatypes and strings.  Both operands must have identical
 // dynamic type.
-func binop(op token.Token, t types.Type, x, y value) value {
+func binop(mc *machine, op token.Token, t types.Type, x, y value) value {
+	if isSym(x) || isSym(y) {
+		return mc.symBinop(op, t, x, y)
+	}
+	switch x.(type) {
+	case symstr:
+		return mc.symStringBinop(op, x, y)
+	case string:
+		if _, ok := y.(symstr); ok {
+			return mc.symStringBinop(op, x, y)
+		}
+	case structure, array, iface:
+		if (op == token.EQL || op == token.NEQ) && (hasSymDeep(x) || hasSymDeep(y)) {
+			r := mc.eqTerm(t, x, y)
+			if op == token.NEQ {
+				r = mc.b.Not(r)
+			}
+			return mc.val(r, types.Bool)
+		}
+	}
 	switch op {
 	case token.ADD:
 		switch x.(type) {
@@ -816,10 +830,8 @@ func eqnil(t types.Type, x, y value) bool {
 		// Since these types don't support comparison,
 		// one of the operands must be a literal nil.
 		switch x := x.(type) {
-		case *hashmap:
-			return (x != nil) == (y.(*hashmap) != nil)
-		case map[value]value:
-			return (x != nil) == (y.(map[value]value) != nil)
+		case *omap:
+			return (x != nil) == (y.(*omap) != nil)
 		case *ssa.Function:
 			switch y := y.(type) {
 			case *ssa.Function:
@@ -838,10 +850,13 @@ func eqnil(t types.Type, x, y value) bool {
 	return equals(t, x, y)
 }
 
-func unop(instr *ssa.UnOp, x value) value {
+func unop(fr *frame, instr *ssa.UnOp, x value) value {
+	if sx, ok := x.(sym); ok {
+		return fr.i.m.symUnop(instr.Op, sx)
+	}
 	switch instr.Op {
 	case token.ARROW: // receive
-		v, ok := <-x.(chan value)
+		v, ok := fr.i.m.chanRecv(x.(*vchan))
 		if !ok {
 			v = zero(instr.X.Type().Underlying().(*types.Chan).Elem())
 		}
@@ -883,7 +898,10 @@ func unop(instr *ssa.UnOp, x value) value {
 			return -x
 		}
 	case token.MUL:
-		return load(typeparams.MustDeref(instr.X.Type()), x.(*value))
+		if sa, ok := x.(symAddr); ok {
+			return copyVal(fr.i.m.symRead(sa.elems, sa.idx))
+		}
+		return load(mustDeref(instr.X.Type()), x.(*value))
 	case token.NOT:
 		return !x.(bool)
 	case token.XOR:
@@ -960,39 +978,90 @@ func callBuiltin(caller *frame, fn *ssa.Builtin, args []value) value {
 		if len(args) == 1 {
 			return args[0]
 		}
-		if s, ok := args[1].(string); ok {
-			// append([]byte, ...string) []byte
-			arg0 := args[0].([]value)
-			for i := 0; i < len(s); i++ {
-				arg0 = append(arg0, s[i])
-			}
-			return arg0
+		var add []value
+		switch s := args[1].(type) {
+		case string, symstr:
+			add = strBytes(s)
+		case []value:
+			add = s
 		}
-		// append([]T, ...[]T) []T
-		return append(args[0].([]value), args[1].([]value)...)
+		esz := int64(8)
+		if sl, ok := fn.Type().(*types.Signature).Params().At(0).Type().Underlying().(*types.Slice); ok {
+			esz = caller.i.sizes.Sizeof(sl.Elem())
+		}
+		return appendSlice(args[0].([]value), add, esz)
 
 	case "copy": // copy([]T, []T) int or copy([]byte, string) int
 		src := args[1]
-		if _, ok := src.(string); ok {
-			params := fn.Type().(*types.Signature).Params()
-			src = conv(params.At(0).Type(), params.At(1).Type(), src)
+		switch s := src.(type) {
+		case string, symstr:
+			src = strBytes(s)
 		}
 		return copy(args[0].([]value), src.([]value))
 
 	case "close": // close(chan T)
-		close(args[0].(chan value))
+		caller.i.m.chanClose(args[0].(*vchan))
+		return nil
+
+	case "clear":
+		switch x := args[0].(type) {
+		case *omap:
+			if x != nil {
+				x.clear()
+			}
+		case []value:
+			et := fn.Type().(*types.Signature).Params().At(0).Type().Underlying().(*types.Slice).Elem()
+			for i := range x {
+				x[i] = zero(et)
+			}
+		default:
+			panic(fmt.Sprintf("clear: illegal operand %T", x))
+		}
 		return nil
 
 	case "delete": // delete(map[K]value, K)
 		switch m := args[0].(type) {
-		case map[value]value:
-			delete(m, args[1])
-		case *hashmap:
-			m.delete(args[1].(hashable))
+		case *omap:
+			if m != nil {
+				m.delete(caller.i.m, args[1])
+			}
 		default:
 			panic(fmt.Sprintf("illegal map type: %T", m))
 		}
 		return nil
+
+	case "Slice": // unsafe.Slice(ptr, len)
+		n := caller.i.m.asInt64(args[1])
+		p := args[0].(*value)
+		if p == nil {
+			if n != 0 {
+				panic("runtime error: unsafe.Slice: ptr is nil and len is not zero")
+			}
+			return []value(nil)
+		}
+		return unsafe.Slice(p, int(n))
+
+	case "String": // unsafe.String(ptr, len)
+		n := caller.i.m.asInt64(args[1])
+		p := args[0].(*value)
+		if p == nil || n == 0 {
+			return ""
+		}
+		return mkString(unsafe.Slice(p, int(n)))
+
+	case "StringData":
+		bs := strBytes(args[0])
+		if len(bs) == 0 {
+			return (*value)(nil)
+		}
+		return &bs[0]
+
+	case "SliceData":
+		s := args[0].([]value)
+		if cap(s) == 0 {
+			return (*value)(nil)
+		}
+		return &s[:1][0]
 
 	case "print", "println": // print(any, ...)
 		ln := fn.Name() == "println"
@@ -1013,18 +1082,21 @@ func callBuiltin(caller *frame, fn *ssa.Builtin, args []value) value {
 		switch x := args[0].(type) {
 		case string:
 			return len(x)
+		case symstr:
+			return len(x)
 		case array:
 			return len(x)
 		case *value:
 			return len((*x).(array))
 		case []value:
 			return len(x)
-		case map[value]value:
-			return len(x)
-		case *hashmap:
+		case *omap:
 			return x.len()
-		case chan value:
-			return len(x)
+		case *vchan:
+			if x == nil {
+				return 0
+			}
+			return len(x.buf)
 		default:
 			panic(fmt.Sprintf("len: illegal operand: %T", x))
 		}
@@ -1037,16 +1109,19 @@ func callBuiltin(caller *frame, fn *ssa.Builtin, args []value) value {
 			return cap((*x).(array))
 		case []value:
 			return cap(x)
-		case chan value:
-			return cap(x)
+		case *vchan:
+			if x == nil {
+				return 0
+			}
+			return x.cap
 		default:
 			panic(fmt.Sprintf("cap: illegal operand: %T", x))
 		}
 
 	case "min":
-		return foldLeft(min, args)
+		return foldLeft(func(a, b value) value { return caller.i.m.minmax(a, b, true) }, args)
 	case "max":
-		return foldLeft(max, args)
+		return foldLeft(func(a, b value) value { return caller.i.m.minmax(a, b, false) }, args)
 
 	case "real":
 		switch c := args[0].(type) {
@@ -1103,14 +1178,14 @@ func callBuiltin(caller *frame, fn *ssa.Builtin, args []value) value {
 	panic("unknown built-in: " + fn.Name())
 }
 
-func rangeIter(x value) iter {
+func rangeIter(mc *machine, x value) iter {
 	switch x := x.(type) {
-	case map[value]value:
-		return &mapIter{iter: reflect.ValueOf(x).MapRange()}
-	case *hashmap:
-		return &hashmapIter{iter: reflect.ValueOf(x.entries()).MapRange()}
+	case *omap:
+		return x.iter(mc)
 	case string:
 		return &stringIter{Reader: strings.NewReader(x)}
+	case symstr:
+		mc.unsupported("range over a string with symbolic bytes")
 	}
 	panic(fmt.Sprintf("cannot range over %T", x))
 }
@@ -1155,9 +1230,31 @@ func widen(x value) value {
 // conv converts the value x of type t_src to type t_dst and returns
 // the result.
 // Possible cases are described with the ssa.Convert operator.
-func conv(t_dst, t_src types.Type, x value) value {
+func conv(mc *machine, t_dst, t_src types.Type, x value) value {
 	ut_src := t_src.Underlying()
 	ut_dst := t_dst.Underlying()
+
+	if sx, ok := x.(sym); ok {
+		if bd, ok := ut_dst.(*types.Basic); ok {
+			return mc.symConvInt(sx, bd.Kind())
+		}
+		mc.unsupported("conversion of symbolic scalar to %s", t_dst)
+	}
+	if ss, ok := x.(symstr); ok {
+		switch ut_dst := ut_dst.(type) {
+		case *types.Basic:
+			if ut_dst.Kind() == types.String {
+				return ss
+			}
+		case *types.Slice:
+			if bk, ok := basicKindOf(ut_dst.Elem()); ok && bk == types.Byte {
+				out := make([]value, len(ss))
+				copy(out, ss)
+				return out
+			}
+		}
+		mc.unsupported("conversion of symbolic string to %s", t_dst)
+	}
 
 	// Destination type is not an "untyped" type.
 	if b, ok := ut_dst.(*types.Basic); ok && b.Info()&types.IsUntyped != 0 {
@@ -1199,12 +1296,7 @@ func conv(t_dst, t_src types.Type, x value) value {
 		// []byte or []rune -> string
 		switch ut_src.Elem().Underlying().(*types.Basic).Kind() {
 		case types.Byte:
-			x := x.([]value)
-			b := make([]byte, 0, len(x))
-			for i := range x {
-				b = append(b, x[i].(byte))
-			}
-			return string(b)
+			return mkString(x.([]value))
 
 		case types.Rune:
 			x := x.([]value)
@@ -1265,10 +1357,8 @@ func conv(t_dst, t_src types.Type, x value) value {
 			// simulate the memory layout of a real
 			// compiled implementation.
 			//
-			// To at least preserve type-safety, we'll
-			// just return the zero value of the
-			// destination type.
-			return zero(t_dst)
+			// symgo: resolved through the container registry.
+			return mc.fromUnsafePointer(t_dst, x)
 		}
 
 		// Conversions between complex numeric types?
@@ -1432,7 +1522,7 @@ func min(x, y value) value {
 	}
 
 	// return (y < x) ? y : x
-	if binop(token.LSS, nil, y, x).(bool) {
+	if binop(nil, token.LSS, nil, y, x).(bool) {
 		return y
 	}
 	return x
@@ -1447,7 +1537,7 @@ func max(x, y value) value {
 	}
 
 	// return (y > x) ? y : x
-	if binop(token.GTR, nil, y, x).(bool) {
+	if binop(nil, token.GTR, nil, y, x).(bool) {
 		return y
 	}
 	return x
